@@ -127,7 +127,8 @@ def gen_base(rng, tier):
          "constants": [rng.choice(keys)] if rng.random() < 0.25 else [],
          "point_estimates": [rng.choice(keys)] if rng.random() < 0.25 else [],
          "bufsize": rng.choice([1, 64, 4096, 8192, None]), "nranks": 1,
-         "fresh": rng.choice(["true", "true", "only0", "alt"]), "initial_position": rng.random() < 0.3}
+         "fresh": rng.choice(["true", "true", "only0", "alt"]), "initial_position": rng.random() < 0.3,
+         "sanity_checks": rng.random() < 0.8}
     if model == "nl3" and rng.random() < 0.2:
         b["grow_at"] = rng.randrange(1, b["nit"])
         b["constants"] = [k for k in b["constants"] if k != "c"]
